@@ -16,6 +16,17 @@ ENGINES = [
 ]
 NA = {}
 TEXT = {
+    "C19": {
+        "engine": "rrtk-mc c19-trace + c19-unchecked in six builds; driver/c19_cfg.py (cross-configuration comparison; other properties' oracles per configuration)",
+        "technique": "exhaustive enumeration of the configuration space (6 feature configurations) crossed with bounded-exhaustive workloads (all short event histories of every stream, grids of quantities/states/profiles, device rounds); canonical traces compared across all builds; all 49x49 ill-dimensioned unit pairs in the unchecked builds",
+        "text": "The same harness sources are built against rrtk under every configuration; each build writes canonical traces "
+                "of ~190k well-dimensioned cases in 14 sections which must be identical across builds (f32 as values, "
+                "timestamps, categories), powf-dependent sections within a stated tolerance across back ends and exact "
+                "between checked/unchecked; unchecked builds must never panic or reject on any of 2401 unit pairs and 49 "
+                "setter/constructor/converter units; the oracles of C02, C12, C14 (thorough: 14 properties) are re-run "
+                "inside every configuration.",
+        "note": "Programs = the enumerated workloads; the configuration axis itself is covered completely.",
+    },
     "C16": {
         "engine": "rrtk-mc c16-nary-scratch + c16-terminal-read-scratch + c16-axle-constructor; driver/c16_lifetime.py (compiler probes); thorough: c16_miri.py",
         "technique": "exhaustive enumeration of all absent/present patterns (2^N, N<=8, plus an error at every position), terminal presence combinations and axle sizes 0..8 with poisoned scratch arrays (hook rrtk_verif); bounded enumeration of a generated family of safe probe programs with rustc's borrow checker as oracle; thorough: the same cases and the accepted probes under Miri",
